@@ -11,6 +11,7 @@ CONSTANTS
   FragLen2 = 1
   FragLenSJ = 1
   FragAll = FALSE
+  FragAlpha = "frag"
   WithPlumb = FALSE
   WithFrag = TRUE
 INVARIANTS TypeOK DesignOK MachineOK
